@@ -172,9 +172,9 @@ func runScript(script []string, fl flags) *runResult {
 		case "acput", "acget":
 			st.reply = w.execAC(line)
 			mutating = f[0] == "acput"
-		case "cput", "cget", "cfm":
+		case "cput", "cget", "cfm", "cacput", "cacget":
 			st.reply = w.execClient(line)
-			mutating = f[0] == "cput"
+			mutating = f[0] == "cput" || f[0] == "cacput"
 		case "dump":
 			st.reply = dumpLine(w.cas, w.ac)
 		default:
